@@ -19,6 +19,7 @@ import (
 	"io"
 	"io/fs"
 	"log/slog"
+	"net/http"
 	"net/http/httptest"
 	"strconv"
 	"strings"
@@ -238,6 +239,8 @@ type witnessCtx struct {
 	reached   chan struct{} // closed when the gate is reached
 	release   chan struct{}
 	dead      chan struct{} // closed when a die outcome parks the request forever
+	// onFirstWrite, if set, runs once right before the first byte of the response body is handed to the client
+	onFirstWrite func()
 }
 
 var witnessErrInjected = errors.New("injected storage error")
@@ -545,7 +548,12 @@ func witnessPost(w *witness.Witness, path string, body []byte, c *witnessCtx) (s
 		req := httptest.NewRequest("POST", path, bytes.NewReader(body))
 		req = req.WithContext(context.WithValue(req.Context(), witnessRidKey{}, c))
 		rec := httptest.NewRecorder()
-		w.Handler().ServeHTTP(rec, req)
+		var rw http.ResponseWriter = rec
+		if c.onFirstWrite != nil {
+			// a slow client: something else happens between the handler's decision and the moment its bytes are consumed
+			rw = &witnessSlowWriter{ResponseWriter: rec, hook: c.onFirstWrite}
+		}
+		w.Handler().ServeHTTP(rw, req)
 		r.code = rec.Code
 		r.body = rec.Body.Bytes()
 		r.ctype = rec.Header().Get("Content-Type")
@@ -721,4 +729,17 @@ func witnessParseText(text []byte) (origin string, n int64, root [32]byte, ok bo
 		return "", 0, root, false
 	}
 	return parts[0], n, root, true
+}
+
+type witnessSlowWriter struct {
+	http.ResponseWriter
+	hook func()
+}
+
+func (s *witnessSlowWriter) Write(b []byte) (int, error) {
+	if h := s.hook; h != nil {
+		s.hook = nil
+		h()
+	}
+	return s.ResponseWriter.Write(b)
 }
